@@ -296,6 +296,30 @@ EXTRA5 = {
 for _pid, _t in EXTRA5.items():
     if _pid in CLAIMS and _t != "-":
         EXTRA[_pid] = (EXTRA[_pid][0] + "; fifth round: " + _t, EXTRA[_pid][1])
+EXTRA6 = {
+    "C01": "POINTWISE-SCATTER (np.place), column scaling by a broadcast weight array, LOCAL-ALIAS, SLICE-TRUNC / NEG-ZERO-SLICE, MESH2D-CENTRE",
+    "C02": "POINTWISE-REDUCE (float-truth reductions, global extrema), POINTWISE-SCATTER, LOCAL-ALIAS, REG-COPY, flux dispatcher decided on its abstract execution",
+    "C03": "ROUNDTRIP and MESH-COUNT as premises, np.resize of vector fields, witness points on both sides of max/min literals",
+    "C04": "JAC-GUARD / JAC-LINEAR, floating-point redundant guards of the side step",
+    "C05": "scalar-or-array and all-equal tests on the step argument (STEP-ONE-FORMULA with the form of the step)",
+    "C06": "DTYPE-INT-RECIPROCAL, scalar history of a previous step, list multiplication shares objects",
+    "C07": "loop targets are effects, enumerate loops, tuple targets, default stop time must not override the caller's, copy-on-write dictionaries, fp-redundant guards",
+    "C08": "DRV-SNAPSHOT of the returned field, shallow field copies (copy.copy), MON-STORE",
+    "C10": "LOCAL-ALIAS, positional axis of np.min / np.max over a tuple",
+    "C11": "RECON-EACH-VAR, np.roll / whole-array arithmetic / Ellipsis on the 2D layout arrays, one-index subscripts of vector arrays",
+    "C12": "np.clip by numpy's definition, LIM-SCALAR (bitwise not of a Python bool)",
+    "C13": "np.isclose by its definition (hidden atol), np.roll on 1-D arrays, several cell-size relations",
+    "C14": "DT-REST, np.roll along the component axis, column tables outside the row",
+    "C15": "MESH2D-CENTRE, SLICE-TRUNC, witness points on both sides of max/min literals",
+    "C16": "np.put on vector arrays, narrow integers in the mesh tables, falsy-zero components",
+    "C17": "REG-COPY, kept split axis (VAR-RANK), every named variable registered (VAR-REG)",
+    "C18": "DT-REST (allocation value of cells the formula is not stored in, where= of ufuncs)",
+    "C19": "filtered comprehensions / any-all truthiness / five source patterns in SRC-ONCE, reductions over the nozzle term explored both ways",
+    "C20": "NEG-ZERO-SLICE, SLICE-TRUNC, MESH2D-CENTRE",
+}
+for _pid, _t in EXTRA6.items():
+    if _pid in CLAIMS and _t != "-":
+        EXTRA[_pid] = (EXTRA[_pid][0] + "; sixth round: " + _t, EXTRA[_pid][1])
 EXTRA["C17"] = (EXTRA["C17"][0], EXTRA["C17"][1] + ", forward rounding-error abstract domain")
 EXTRA["C12"] = (EXTRA["C12"][0], EXTRA["C12"][1] + ", forward rounding-error abstract domain")
 for _pid in ("C07", "C06", "C08"):
